@@ -715,6 +715,90 @@ func (c *cliFront) plan(h *heapRun, o *obj, st Step) (*cliCall, string) {
 			}
 			return false
 		}}, ""
+	case "EntropyAll":
+		// `goalign compute entropy [-g] [-a]`: a table "alignment <TAB> site <TAB> entropy" (three decimals), or one average
+		if !needsAlign() || o.sb.NbSequences() == 0 {
+			return nil, "bag"
+		}
+		argv := []string{"compute", "entropy"}
+		if ab(a, "rmgaps") {
+			argv = append(argv, "-g")
+		}
+		avg := ab(a, "avg")
+		if avg {
+			argv = append(argv, "-a")
+		}
+		return &cliCall{argv: argv, query: true, ret: func(stdout, stderr string, ret map[string]interface{}) bool {
+			lines := strings.Split(strings.TrimRight(stdout, "\n"), "\n")
+			if len(lines) < 1 {
+				return false
+			}
+			fs := []interface{}{}
+			for k, l := range lines[1:] {
+				f := strings.Split(l, "\t")
+				if f[0] != "0" {
+					break // the lines of the alignment that follows (two-alignment inputs)
+				}
+				if avg {
+					if len(f) != 2 {
+						return false
+					}
+					ret["avg"] = f[1]
+					return lines[0] == "Alignment\tAvgEntropy"
+				}
+				if len(f) != 3 || f[1] != strconv.Itoa(k) {
+					return false
+				}
+				fs = append(fs, f[2])
+			}
+			ret["f"] = fs
+			return !avg && lines[0] == "Alignment\tSite\tEntropy"
+		}}, ""
+	case "Pssm":
+		// `goalign compute pssm -n <norm> -c <pseudo-count> [-l]`: a header of alphabet characters, one line per site
+		if !needsAlign() || o.sb.NbSequences() == 0 {
+			return nil, "bag"
+		}
+		argv := []string{"compute", "pssm", "-n", strconv.Itoa(ai(a, "norm")), "-c", astrs(a, "pc")}
+		if ab(a, "log") {
+			argv = append(argv, "-l")
+		}
+		return &cliCall{argv: argv, query: true, ret: func(stdout, stderr string, ret map[string]interface{}) bool {
+			lines := strings.Split(strings.TrimRight(stdout, "\n"), "\n")
+			if len(lines) < 1 {
+				return false
+			}
+			hdr := strings.Split(lines[0], "\t")
+			if len(hdr) < 2 || hdr[0] != "" {
+				return false
+			}
+			cols := make([][]string, len(hdr)-1)
+			for k, l := range lines[1:] {
+				f := strings.Split(l, "\t")
+				if len(f) == len(hdr) && f[0] == "" {
+					break // the table of the alignment that follows (two-alignment inputs)
+				}
+				if len(f) != len(hdr) || f[0] != strconv.Itoa(k+1) {
+					return false
+				}
+				for j := range cols {
+					cols[j] = append(cols[j], f[j+1])
+				}
+			}
+			m := []map[string]interface{}{}
+			for j, c := range hdr[1:] {
+				if len(c) != 1 {
+					return false
+				}
+				v := cols[j]
+				if v == nil {
+					v = []string{}
+				}
+				m = append(m, map[string]interface{}{"c": int(c[0]), "v": v})
+			}
+			ret["m"], ret["prec"] = m, 3
+			return true
+		}}, ""
 	case "AvgAllelesPerSite":
 		if !needsAlign() {
 			return nil, "bag"
